@@ -233,6 +233,10 @@ std::string CostProgram::describe() const
         o << "exp(-|p-o(tg)|^2) ";
     if (dl_w)
         o << "deadline(tg)^3 ";
+    if (wn_w)
+        o << "window(tg)|p-c|^2 ";
+    if (conditionalWrites)
+        o << "(conditional writes) ";
     if (seg_w)
         o << "*segweight";
     o << "]";
@@ -437,6 +441,17 @@ R valueT(const CostProgram &c, R tg, int seg, const R *p, const R *v, const R *a
         if (e > 0)
             val += (R)c.dl_w * e * e * e * ((R)1 + (R)0.1 * dot(v, v));
     }
+    if (c.wn_w != 0 && tg > (R)c.wn_0 && tg < (R)c.wn_1)
+    {
+        R b = (tg - (R)c.wn_0) * ((R)c.wn_1 - tg);
+        R d2 = 0;
+        for (int q = 0; q < d; ++q)
+        {
+            R e = p[q] - (R)c.wn_c[q];
+            d2 += e * e;
+        }
+        val += (R)c.wn_w * b * b * b * d2;
+    }
     R sw = (R)1 + (R)c.seg_w * (R)(seg % 5);
     return val * sw;
 }
@@ -555,12 +570,36 @@ double CostProgram::runCost(double t, double tg, int seg, const double *p, const
             Gt += dl_w * 3 * e * e * (1 + 0.1 * vv);
         }
     }
+    bool timeActive = (m_c != 0 || l_d != 0 || o_e != 0);
+    if (wn_w != 0 && tg > wn_0 && tg < wn_1)
+    {
+        double b = (tg - wn_0) * (wn_1 - tg);
+        double d2 = 0;
+        for (int q = 0; q < d; ++q)
+        {
+            double e = p[q] - wn_c[q];
+            d2 += e * e;
+            G[0][q] += wn_w * b * b * b * 2 * e;
+        }
+        Gt += wn_w * 3 * b * b * (wn_0 + wn_1 - 2 * tg) * d2;
+        timeActive = true;
+    }
+    if (dl_w != 0 && tg > dl_t)
+        timeActive = true;
+    // conditional style: an output is written only when this sample has something to report for it (a user functor of
+    // the form "if (inside the window) { ...; gt = ...; }"); the library zero-initialises every output before each call
     double *out[5] = {gp, gv, ga, gj, gs};
     for (int k = 0; k < 5; ++k)
         if (usesClass[k])
+        {
+            bool any = false;
             for (int q = 0; q < d; ++q)
-                out[k][q] = sw * G[k][q];
-    if (usesTime)
+                any = any || G[k][q] != 0.0;
+            if (any || !conditionalWrites)
+                for (int q = 0; q < d; ++q)
+                    out[k][q] = sw * G[k][q];
+        }
+    if (usesTime && (timeActive || !conditionalWrites))
         gt = sw * Gt;
     if (pert >= PERT_GP && pert <= PERT_GS)
         out[pert - PERT_GP][pert_coord % d] += pert_delta;
